@@ -751,7 +751,16 @@ static Outcome run_sanity(const Case &c) {
   if (common >= 8 && common < 256) o.cls("differs-from-p-first-at-byte-" + std::string(common < 64 ? "8..63" : common < 192 ? "64..191" : common < 255 ? "192..254" : "255"));
   if (common >= 8 || v == std::string(256, '\0') || v == std::string(256, '\xff')) o.nontrivial = true;
   uint8_t *t = heap(v);
+  // the check is a comparison of two byte strings: its answer cannot depend on whether OpenSSL's allocator is in a good mood (in half of
+  // the cases the k-th OpenSSL allocation made during the call, k = 1..4, is refused -- the unchanged code makes none)
+  long ak = (long)(pbt::fnv(v) % 8);
+  g_ossl_calls = 0, g_ossl_failed = 0;
+  g_ossl_fail_at = ak >= 1 && ak <= 4 ? ak : -1;
+  g_ossl_armed = true;
   int rc = shim_dh_sanitycheck(t);
+  g_ossl_armed = false;
+  g_ossl_fail_at = -1;
+  if (g_ossl_failed) o.cls("OpenSSL allocation refused during the sanity check");
   free(t);
   char buf[200];
   if (rc != 0 && rc != -1) {
